@@ -137,12 +137,26 @@ fn restricted_context() -> Context {
 const NEXT_RUN: &str = "#---next-run-on-the-returned-context---";
 const NEXT_RUN_SEP: &str = "\n#---next-run-on-the-returned-context---\n";
 
+/// a writer that refuses every write (`/dev/full`)
+struct FailWrite;
+impl std::io::Write for FailWrite {
+    fn write(&mut self, _b: &[u8]) -> std::io::Result<usize> {
+        Err(std::io::Error::new(std::io::ErrorKind::Other, "No space left on device"))
+    }
+    fn flush(&mut self) -> std::io::Result<()> {
+        Err(std::io::Error::new(std::io::ErrorKind::Other, "No space left on device"))
+    }
+}
+
 enum Job {
     Text(String),
     Lib(String, Vec<(String, String)>),
     /// `test_file` on a file with this content (the full SDK; the content comes from a pool of
     /// harmless lines: function definitions of every shape, assignments, asserts)
     TestFile(String),
+    /// a hand-written harmless script run with the FULL SDK (commands the random stream must not
+    /// get: they read the file system) — index into FULL_SCRIPTS
+    Full(usize),
 }
 
 fn run_job(job: Job) -> String {
@@ -151,6 +165,20 @@ fn run_job(job: Job) -> String {
             let _ = duckscript::parser::parse_text(&text);
             let halt = guarded_halt(HALT_MS);
             let _ = duckscript::runner::run_script(&text, Context::new(), Some(quiet_env(Some(halt))));
+            "ok".to_string()
+        }
+        Job::Full(k) => {
+            let dir = std::env::temp_dir().join(format!("duck-c07-full-{}", std::process::id()));
+            let _ = std::fs::create_dir_all(dir.join("sub"));
+            let _ = std::fs::write(dir.join("sub").join("a.txt"), "x");
+            let _ = std::fs::write(dir.join(".hidden"), "h");
+            // link topology: a link to an ancestor (a cycle for whoever follows links), a dangling link
+            let _ = std::os::unix::fs::symlink(&dir, dir.join("sub").join("up"));
+            let _ = std::os::unix::fs::symlink(dir.join("gone"), dir.join("dangling"));
+            let mut ctx = crate::sdkenv::sdk_context();
+            ctx.variables.insert("d".to_string(), dir.to_string_lossy().to_string());
+            let halt = guarded_halt(HALT_MS);
+            let _ = duckscript::runner::run_script(FULL_SCRIPTS[k % FULL_SCRIPTS.len()], ctx, Some(quiet_env(Some(halt))));
             "ok".to_string()
         }
         Job::TestFile(content) => {
@@ -185,10 +213,19 @@ fn run_job(job: Job) -> String {
             // behind by an earlier run (scope stack, handles, call stacks, on_error record) is what
             // the next run starts from; a failed run ends the history (its Context is gone)
             let parts: Vec<&str> = script.split(NEXT_RUN_SEP).collect();
-            let mut r = duckscript::runner::run_script(parts[0], ctx, Some(quiet_env(Some(halt.clone()))));
+            // one script in four runs with writers that FAIL (write refused / flush refused: a closed
+            // pipe, a full disk behind the embedder's writer): printing commands must report, not panic
+            let env_for = |halt: std::sync::Arc<std::sync::atomic::AtomicBool>| -> duckscript::types::env::Env {
+                match crate::hash_str(&script) % 8 {
+                    0 => duckscript::types::env::Env::new(Some(Box::new(crate::scripted::FailFlush)), Some(Box::new(crate::scripted::FailFlush)), Some(halt)),
+                    1 => duckscript::types::env::Env::new(Some(Box::new(FailWrite)), Some(Box::new(FailWrite)), Some(halt)),
+                    _ => quiet_env(Some(halt)),
+                }
+            };
+            let mut r = duckscript::runner::run_script(parts[0], ctx, Some(env_for(halt.clone())));
             for part in &parts[1..] {
                 r = match r {
-                    Ok(c) => duckscript::runner::run_script(part, c, Some(quiet_env(Some(halt.clone())))),
+                    Ok(c) => duckscript::runner::run_script(part, c, Some(env_for(halt.clone()))),
                     Err(e) => Err(e),
                 };
             }
@@ -273,6 +310,15 @@ fn run_guarded(job: Job) -> String {
 // ------------------------------------------------------------------------------------------
 // child-process probes (cases that abort the process)
 // ------------------------------------------------------------------------------------------
+/// read-only file-system commands with every arrangement of their options and positional values
+/// (an option left WITHOUT its value, no argument at all, a missing path); `${d}` = a private directory
+const FULL_SCRIPTS: [&str; 17] = [
+    "x = test_directory ${d}", "x = test_directory ${d} nothing", "x = test_directory ${d}/nope",
+    "x = gitignore_path_array --include-hidden", "x = gitignore_path_array", "x = gitignore_path_array --include-hidden ${d}", "x = gitignore_path_array ${d} --include-hidden",
+    "x = gitignore_path_array ${d}/nope", "x = glob_array", "x = glob_array ${d}/*", "x = ls", "x = ls -l", "x = ls ${d}/nope", "x = ls -l ${d}",
+    "x = is_path_newer", "x = is_path_newer ${d}", "x = get_last_modified_time",
+];
+
 /// (probe id, mode, script; `@SELF` = path of the script file itself)
 const PROBES: [(&str, &str, &str); 20] = [
     // controls: deeply nested TEXTS handed to a parser must come back (an error value is fine)
@@ -945,6 +991,9 @@ impl Prop for C07Prop {
     }
     fn fixed_cases(&self, _tier: Tier) -> Vec<Case> {
         let mut out = vec![];
+        for k in 0..FULL_SCRIPTS.len() {
+            out.push(Case { req: format!("c07 full {}", k), in_domain: true, nontrivial: true, tags: vec!["full-sdk-read-only"] });
+        }
         for (name, _, _) in PROBES.iter() {
             out.push(Case { req: format!("c07 child {}", name), in_domain: true, nontrivial: true, tags: vec!["child-probe"] });
         }
@@ -1081,6 +1130,7 @@ impl Prop for C07Prop {
                 None => "BAD-REQUEST".to_string(),
             },
             ["c07", "child", name] => run_probe(name),
+            ["c07", "full", k] => run_guarded(Job::Full(k.parse().unwrap_or(0))),
             ["c07", "testfile", t] => match dec_str(t) {
                 Some(content) => {
                     // (every HANG leaves its helper thread behind: after a few the stream stops
